@@ -2196,7 +2196,7 @@ fn mutations_self_tested() -> serde_json::Value {
       {"mutation": "`set_count >= batch_threshold` → `>`", "class": "3 equality", "before": "caught (5 ops)", "after": "caught (74 ops)"},
       {"mutation": "try_fast_set: value length added with wrapping_add", "class": "5 capacity thresholds", "before": "missed (exit 0)", "after": "C04:crash:huge-value-length (attempt to add with overflow) on `*3\\r\\n$3\\r\\nSET\\r\\nX$1\\r\\nk\\r\\n$18446744073709551615\\r\\nab`"},
       {"mutation": "PerformanceConfig::validate forgets `max_size < read_size`", "class": "4 configuration / 1 entry paths (server_optimized.rs)", "before": "missed (exit 0)", "after": "C04:config:invalid-accepted:invalid:max-below-read (the real server starts)"},
-      {"mutation": "run(): a failed flush is ignored", "class": "6 fault kinds", "before": "see DESIGN §10.1", "after": "model disagreement on 152 W ops (number of reads made after the failed flush); no property-level failing input: the bytes are still a prefix of the reply stream"}
+      {"mutation": "run(): a failed flush is ignored", "class": "6 fault kinds", "before": "missed (exit 0)", "after": "model disagreement on 152 W ops (number of reads made after the failed flush); no property-level failing input: the bytes are still a prefix of the reply stream"}
     ])
 }
 
